@@ -84,7 +84,7 @@ func (a *APReq) DecryptAuthenticator(sessionKey types.EncryptionKey) error {
 }
 
 func authenticatorKeyUsage(pn types.PrincipalName) int {
-	if pn.NameString[0] == "krbtgt" {
+	if len(pn.NameString) > 0 && pn.NameString[0] == "krbtgt" {
 		return keyusage.TGS_REQ_PA_TGS_REQ_AP_REQ_AUTHENTICATOR
 	}
 	return keyusage.AP_REQ_AUTHENTICATOR
@@ -187,6 +187,9 @@ func (a *APReq) Verify(kt *keytab.Keytab, d time.Duration, cAddr types.HostAddre
 	// Check CName in authenticator is the same as that in the ticket
 	if !a.Authenticator.CName.Equal(a.Ticket.DecryptedEncPart.CName) {
 		return false, NewKRBError(a.Ticket.SName, a.Ticket.Realm, errorcode.KRB_AP_ERR_BADMATCH, "CName in Authenticator does not match that in service ticket")
+	}
+	if a.Authenticator.CRealm != a.Ticket.DecryptedEncPart.CRealm {
+		return false, NewKRBError(a.Ticket.SName, a.Ticket.Realm, errorcode.KRB_AP_ERR_BADMATCH, "CRealm in Authenticator does not match that in service ticket")
 	}
 
 	// Check the clock skew between the client and the service server
